@@ -48,6 +48,7 @@ def run(ctx, rep):
     rep.guarded('L8.l8', l8, ctx, rep)
     rep.guarded('L9.l9', l9, ctx, rep)
     rep.guarded('L10.l10', l10, ctx, rep)
+    rep.guarded('L11.l11', l11, ctx, rep)
 
 
 # --------------------------------------------------------------------- L1 check_fit dominance
@@ -724,12 +725,18 @@ def l9(ctx, rep):
 
 # ----------------------------------------------------------------------------- L10 memo tables are keyed by everything the value depends on
 def _sources(fn, e, seen=None):
-    """Names the value of e depends on, expressed in parameters of fn and in *pieces*: a local bound by tuple-unpacking a call
-    (`package, name = q.rsplit('.', 1)`) is a source of its own - two pieces of one input are different information."""
+    """What the value of e depends on, in terms of parameters of fn (`p`), attributes of parameters (`p.attr`) and *pieces*: a
+    local bound by tuple-unpacking a call (`package, name = q.rsplit('.', 1)`) is a source of its own - two pieces of one input
+    are different information.  In-place growth of a local (`A.update(x)`, `A.add(x)`, `A.append(x)`) adds the sources of x."""
     seen = seen if seen is not None else set()
     out = set()
+    skip = set()
     for x in ast.walk(e):
-        if not (isinstance(x, ast.Name) and isinstance(x.ctx, ast.Load)):
+        if isinstance(x, ast.Attribute) and isinstance(x.value, ast.Name) and x.value.id in fn.params and isinstance(x.ctx, ast.Load):
+            out.add(f'{x.value.id}.{x.attr}')
+            skip.add(id(x.value))
+    for x in ast.walk(e):
+        if not (isinstance(x, ast.Name) and isinstance(x.ctx, ast.Load)) or id(x) in skip:
             continue
         if x.id in fn.params:
             out.add(x.id)
@@ -744,9 +751,17 @@ def _sources(fn, e, seen=None):
                     if isinstance(t, ast.Name) and t.id == x.id:
                         defs.append(a.value)
                     elif isinstance(t, (ast.Tuple, ast.List)) and any(isinstance(y, ast.Name) and y.id == x.id for y in t.elts):
-                        piece = True
+                        if isinstance(a.value, (ast.Tuple, ast.List)) and len(a.value.elts) == len(t.elts):
+                            defs.append(a.value.elts[[getattr(y, 'id', None) for y in t.elts].index(x.id)])
+                        else:
+                            piece = True
             elif isinstance(a, (ast.For, ast.comprehension)) and any(isinstance(y, ast.Name) and y.id == x.id for y in ast.walk(a.target)):
                 piece = True
+            elif isinstance(a, ast.Call) and isinstance(a.func, ast.Attribute) and isinstance(a.func.value, ast.Name) and a.func.value.id == x.id \
+                    and a.func.attr in ('update', 'add', 'append', 'extend', 'insert', 'setdefault'):
+                defs.extend(a.args)
+            elif isinstance(a, ast.AugAssign) and isinstance(a.target, ast.Name) and a.target.id == x.id:
+                defs.append(a.value)
         if piece:
             out.add(x.id)
         for d in defs:
@@ -765,18 +780,40 @@ def l10(ctx, rep):
             if isinstance(st, ast.Assign) and len(st.targets) == 1 and isinstance(st.targets[0], ast.Name) \
                     and (isinstance(st.value, ast.Dict) and not st.value.keys or (isinstance(st.value, ast.Call) and call_name(st.value) in ('dict', 'OrderedDict', 'defaultdict', 'WeakValueDictionary'))):
                 tables[(mod.name, st.targets[0].id)] = st
+    def empty_table(v):
+        return (isinstance(v, ast.Dict) and not v.keys) or (isinstance(v, ast.Call) and call_name(v) in ('dict', 'OrderedDict', 'defaultdict', 'WeakValueDictionary'))
+    for c in prog.classes.values():
+        for an, av in c.attrs.items():
+            if empty_table(av):
+                tables[(c.module.name, f'{c.name}.{an}')] = av
     n = 0
     for fn in sorted(prog.functions.values(), key=lambda f: f.qualname):
         for s_ in walk_no_nested(fn.node):
             key = val = name = None
-            if isinstance(s_, ast.Assign) and len(s_.targets) == 1 and isinstance(s_.targets[0], ast.Subscript) and isinstance(s_.targets[0].value, ast.Name):
-                name, key, val = s_.targets[0].value.id, s_.targets[0].slice, s_.value
+            base = None
+            if isinstance(s_, ast.Assign) and len(s_.targets) == 1 and isinstance(s_.targets[0], ast.Subscript):
+                base, key, val = s_.targets[0].value, s_.targets[0].slice, s_.value
             elif isinstance(s_, ast.Expr) and isinstance(s_.value, ast.Call) and isinstance(s_.value.func, ast.Attribute) and s_.value.func.attr == 'setdefault' \
-                    and isinstance(s_.value.func.value, ast.Name) and len(s_.value.args) == 2:
-                name, key, val = s_.value.func.value.id, s_.value.args[0], s_.value.args[1]
+                    and len(s_.value.args) == 2:
+                base, key, val = s_.value.func.value, s_.value.args[0], s_.value.args[1]
+            if isinstance(base, ast.Name):
+                name = base.id
+            elif isinstance(base, ast.Attribute) and isinstance(base.value, ast.Name):
+                owner = base.value.id
+                k_ = None
+                if fn.cls is not None and owner in (fn.self_name, 'cls', fn.cls.name):
+                    hit = fn.cls.lookup_attr(base.attr)
+                    k_ = hit[0] if hit is not None else None
+                elif prog.resolve(fn.module, base.value) in prog.classes:
+                    hit = prog.classes[prog.resolve(fn.module, base.value)].lookup_attr(base.attr)
+                    k_ = hit[0] if hit is not None else None
+                if k_ is not None:
+                    name = f'{k_.name}.{base.attr}'
+                    if (k_.module.name, name) in tables and k_.module.name != fn.module.name:
+                        tables[(fn.module.name, name)] = tables[(k_.module.name, name)]
             if name is None or (fn.module.name, name) not in tables:
                 continue
-            if any(isinstance(x, ast.Name) and x.id == name and isinstance(x.ctx, ast.Store) for x in walk_no_nested(fn.node)):
+            if '.' not in name and any(isinstance(x, ast.Name) and x.id == name and isinstance(x.ctx, ast.Store) for x in walk_no_nested(fn.node)):
                 continue  # a local of the same name
             n += 1
             ks, vs = _sources(fn, key), _sources(fn, val)
@@ -788,7 +825,7 @@ def l10(ctx, rep):
                     if isinstance(a, ast.Assign) and any(isinstance(t, (ast.Tuple, ast.List)) and any(isinstance(y, ast.Name) and y.id == piece for y in t.elts) for t in a.targets):
                         out |= {x.id for x in ast.walk(a.value) if isinstance(x, ast.Name) and isinstance(x.ctx, ast.Load) and (x.id in fn.params or x.id in ks)}
                 return out
-            missing = sorted(p_ for p_ in vs - ks if not (origin(p_) and origin(p_) <= ks))
+            missing = sorted(p_ for p_ in vs - ks if not (origin(p_) and origin(p_) <= ks) and not ('.' in p_ and p_.split('.')[0] in ks))
             cons = f'{fn.module.name.replace("copulas.", "", 1)}.{name}: memo key'
             if missing:
                 rep.bad('L10.memokey', fn, s_, f'`{short(s_, 70)}`: the stored value depends on {missing} but the key only on {sorted(ks)}: a later call that differs in '
@@ -797,3 +834,50 @@ def l10(ctx, rep):
                 rep.ok('L10.memokey', fn, s_, f'key covers the inputs of the value ({sorted(vs)})', construct=cons)
     if n == 0:
         rep.ok('L10.memokey', prog.func('copulas.utils.get_instance'), 'get_instance', f'no library function fills a module-level table ({len(tables)} module-level dicts)', construct='module-level tables')
+
+
+# ----------------------------------------------------------------------------- L11 class-level containers are not written through an instance
+def l11(ctx, rep):
+    """A dict / list / set written in the class body is one object shared by every instance.  A method that stores it into an
+    instance attribute without copying and then writes into that attribute in place changes the state of every other instance
+    that went through the same method (and of the class itself)."""
+    prog = ctx.prog
+    rep.rule('L11.classstate', 'no method binds a class-level mutable container to an instance attribute (without a copy) that a method of the class writes in place')
+    fx = get_attr_effects(ctx)
+    n = 0
+    for c in sorted(prog.classes.values(), key=lambda k: k.qualname):
+        for m in c.methods.values():
+            if not m.self_name:
+                continue
+            for a in walk_no_nested(m.node):
+                if not (isinstance(a, ast.Assign) and len(a.targets) == 1 and is_self_attr(a.targets[0], m.self_name)):
+                    continue
+                v = a.value
+                if not (isinstance(v, ast.Attribute) and isinstance(v.value, ast.Name) and v.value.id in (m.self_name, 'cls', c.name)):
+                    continue
+                hit = c.lookup_attr(v.attr)
+                if hit is None or not isinstance(hit[1], (ast.Dict, ast.List, ast.Set)):
+                    continue
+                n += 1
+                attr = a.targets[0].attr
+                # in-place writes into self.<attr> anywhere in the class hierarchy below the owner
+                writers = []
+                for k in c.subclasses(strict=False):
+                    for m2 in k.methods.values():
+                        if not m2.self_name:
+                            continue
+                        for x in walk_no_nested(m2.node):
+                            if isinstance(x, ast.Subscript) and isinstance(x.ctx, (ast.Store, ast.Del)) and is_self_attr(x.value, m2.self_name, attr):
+                                writers.append((m2, x))
+                            if isinstance(x, ast.Call) and isinstance(x.func, ast.Attribute) and is_self_attr(x.func.value, m2.self_name, attr) \
+                                    and x.func.attr in ('update', 'pop', 'popitem', 'clear', 'setdefault', 'append', 'extend', 'insert', 'remove', 'add', 'discard', 'sort'):
+                                writers.append((m2, x))
+                cons = f'{c.name}.{v.attr} shared through self.{attr}'
+                if writers:
+                    w_m, w_x = writers[0]
+                    rep.bad('L11.classstate', m, a, f'`{short(a, 60)}` binds the class-level {type(hit[1]).__name__.lower()} `{v.attr}` (one object for all instances) to self.{attr}, '
+                            f'and {w_m.short} writes into it in place (`{short(w_x, 50)}`): fitting one model changes the stored state of every other one', construct=cons)
+                else:
+                    rep.ok('L11.classstate', m, a, f'self.{attr} aliases the class-level `{v.attr}` but nothing writes into it in place', construct=cons)
+    if n == 0:
+        rep.ok('L11.classstate', prog.method('copulas.univariate.base.Univariate', 'fit'), 'classes', 'no class-level mutable container is bound to an instance attribute', construct='class-level containers')
